@@ -202,6 +202,7 @@ def evaluate(text, stem, datadir, schema_names, wd):
     if created_any is not None and len(seen_schemas) == len(names):
         per_created = set(f for f in created_any if f.startswith("entity/") or f.startswith("type/"))
         info["created_type_files"] = len([f for f in per_created if f.startswith("type/") and f.endswith(".h")])
+        info["created_stems"] = sorted(f[:-2] for f in per_created if f.endswith(".h"))
         extra = sorted(per_created - listed_union)
         if extra:
             probs.append("created by exp2cxx under entity/ or type/ but listed in no CMakeLists.txt of the file (left out of every library): %s" % extra[:8])
@@ -324,6 +325,9 @@ def case(ctx, f):
         e1, t1 = c17gen.expected_files(d)
         ee |= e1
         tt |= t1
+    if "created_stems" in info:
+        want = sorted(["entity/" + x for x in ee] + ["type/" + x for x in tt])
+        classes.append("files-as-the-model-predicts" if want == info["created_stems"] else "files-differ-from-model-prediction(not asserted)")
     sample = None
     if nt and len(ev.samples) < 3:
         sample = {"stem": f["stem"], "datadir": f["datadir"], "dirs": info["dirs"], "file": text[:1500]}
@@ -347,7 +351,7 @@ def replay_files(f):
 def main(tier, seed):
     setup()
     workers = max(2, min(12, common.NPROC - 2))
-    n_ex = 450 if tier == "quick" else 3000
+    n_ex = 700 if tier == "quick" else 3000
     return c17run.run(PROP, "exploration", RULE, tier, seed, make_strategy, case, confirm, replay_files, workers, n_ex,
                       min_cases=workers * n_ex // 3,
                       pre=lambda ev, root: ev.extra.update({"hang_probe": "exp2cxx does not return (8 s) on two schemas with same-named supertypes: shape excluded"
